@@ -26,11 +26,6 @@ Inductive case :=
 
 (* ------------------------------------------------------------------------------------------------------------ *)
 (* model side *)
-Fixpoint obs_of (t : prog) : otree :=
-  match t with
-  | Node r _ w ch => ONode (cnt t) (match dep_keys r with Some l => Some (sort_names l) | None => None end) w
-                           (map obs_of ch)
-  end.
 
 Definition apply_pl (pl : pipeline) (t : prog) : result (prog * bool) :=
   match pl with
@@ -149,7 +144,6 @@ Definition check_corr (c : case) : bool :=
 
 (* ------------------------------------------------------------------------------------------------------------ *)
 (* specification side: evaluated on the implementation's observation only *)
-Definition keys_in (us : list (name * Z)) (V : list name) : bool := forallb (fun kv => mem (fst kv) V) us.
 
 Definition spec_tobs (p : pt) (vals : list (name * Z)) (V : list name) : tobs :=
   match spec_program p vals V with
